@@ -16,9 +16,29 @@ def main():
     if a.replay:
         payload = json.load(open(a.replay))
         if payload.get("kind") != "counterexample":
-            print(f"replay {a.replay}: no concrete input recorded (kind={payload.get('kind')}); names what no longer checks:")
-            print(json.dumps(payload.get("no_longer_checks"), indent=1)[:2000])
-            sys.exit(1)
+            # no failing input was found: the replay names the theorem / correspondence that no longer checks.
+            # Re-run what can be re-run: the recorded operation list through the real code and the model.
+            from hx import corr, impl, model
+
+            still = False
+            for item in payload.get("no_longer_checks", []):
+                if "ops" in item:
+                    a_out = corr._cut(impl.ImplRunner().run(item["ops"]))
+                    b_out = corr._cut(model.run_model(item["ops"]))
+                    differs = a_out != b_out
+                    print(f"correspondence {item.get('correspondence')}: model and code {'STILL DIFFER' if differs else 'agree now'} on the recorded operations")
+                    still = still or differs
+                if "proof" in item:
+                    from hx import engine
+
+                    pl = engine.proof_leg(item.get("module") or prop.LEAN_MODULE)
+                    print(f"proof leg of {pl['module']}: {pl['discharged']}/{pl['obligations']} discharged; problems: {pl['problems'][:3]}")
+                    still = still or not pl["ok"]
+            if still:
+                print(f"VIOLATION property={prop.ID} replay={a.replay} no-failing-input-found")
+                sys.exit(1)
+            print("replay: what was recorded checks again")
+            sys.exit(0)
         r = prop.replay(payload)
         print(json.dumps(r, indent=1, default=str)[:3000])
         if r.get("fails"):
